@@ -138,6 +138,16 @@ static bool std_step(Step const& s, SV (&v)[2], std::size_t cap, Out& o)
     return true;
 }
 
+// position -> iterator without pointer arithmetic on invalid positions (the harness must not commit UB itself
+// when it hands the library an out-of-range position; for capacity 0, begin() is a null pointer)
+template <typename It>
+static auto at_off(It b, i64 off) -> It
+{
+    using P = decltype(&*b);
+    (void)sizeof(P);
+    return reinterpret_cast<It>(reinterpret_cast<std::uintptr_t>(b) + static_cast<std::uintptr_t>(off) * sizeof(*b));
+}
+
 // ---- impl: static_vector
 template <typename Vec, typename T>
 static void sv_step(Step const& s, Vec (&v)[2], Out& o)
@@ -150,13 +160,13 @@ static void sv_step(Step const& s, Vec (&v)[2], Out& o)
     if (op == "pb") { x.push_back(val(0)); }
     else if (op == "eb") { x.emplace_back(static_cast<int>(A(0))); }
     else if (op == "pop") { x.pop_back(); }
-    else if (op == "icr") { T c = val(1); o.num(x.insert(x.begin() + A(0), c) - x.begin()); }
-    else if (op == "irv") { o.num(x.insert(x.begin() + A(0), val(1)) - x.begin()); }
-    else if (op == "emp") { o.num(x.emplace(x.begin() + A(0), static_cast<int>(A(1))) - x.begin()); }
-    else if (op == "inn") { T c = val(2); o.num(x.insert(x.begin() + A(0), static_cast<std::size_t>(A(1)), c) - x.begin()); }
-    else if (op == "irg") { std::vector<T> src(s.xs.begin(), s.xs.end()); o.num(x.insert(x.begin() + A(0), src.data(), src.data() + src.size()) - x.begin()); }
-    else if (op == "era") { o.num(x.erase(x.begin() + A(0)) - x.begin()); }
-    else if (op == "err") { o.num(x.erase(x.begin() + A(0), x.begin() + A(1)) - x.begin()); }
+    else if (op == "icr") { T c = val(1); o.num(x.insert(at_off(x.begin(), A(0)), c) - x.begin()); }
+    else if (op == "irv") { o.num(x.insert(at_off(x.begin(), A(0)), val(1)) - x.begin()); }
+    else if (op == "emp") { o.num(x.emplace(at_off(x.begin(), A(0)), static_cast<int>(A(1))) - x.begin()); }
+    else if (op == "inn") { T c = val(2); o.num(x.insert(at_off(x.begin(), A(0)), static_cast<std::size_t>(A(1)), c) - x.begin()); }
+    else if (op == "irg") { std::vector<T> src(s.xs.begin(), s.xs.end()); o.num(x.insert(at_off(x.begin(), A(0)), src.data(), src.data() + src.size()) - x.begin()); }
+    else if (op == "era") { o.num(x.erase(at_off(x.begin(), A(0))) - x.begin()); }
+    else if (op == "err") { o.num(x.erase(at_off(x.begin(), A(0)), at_off(x.begin(), A(1))) - x.begin()); }
     else if (op == "clr") { x.clear(); }
     else if (op == "rsz") { x.resize(static_cast<std::size_t>(A(0))); }
     else if (op == "rsv") { T c = val(1); x.resize(static_cast<std::size_t>(A(0)), c); }
